@@ -552,10 +552,10 @@ impl IoMachine {
     /// run one sequence on a live runtime and on the model; returns (transitions, problem)
     fn run_sequence(scratch: &Scratch, seq: &[IoOp]) -> (u64, Option<(String, String)>) {
         scratch.clear();
-        let existing = scratch.write("exist.txt", "hello\nworld");
+        let existing = scratch.write("exist.txt", "hi\r\nyo\r");
         let missing = scratch.path("missing.txt");
         let new = scratch.path("new.txt");
-        let stdin_content = b"in1\nin2".to_vec();
+        let stdin_content = b"a\r\r\nb\r".to_vec();
         let mut input = std::io::Cursor::new(stdin_content.clone());
         let mut output: Vec<u8> = vec![];
         let argv: Vec<String> = vec![];
@@ -597,7 +597,7 @@ impl IoMachine {
                                 break 'seq;
                             }
                             | Ok(Shape::Call(1, a)) if *op == IoOp::OpenExisting && a.len() == 1 => {
-                                readers.push((Some(a[0].clone()), RSlot::Open { content: b"hello\nworld".to_vec(), pos: 0 }));
+                                readers.push((Some(a[0].clone()), RSlot::Open { content: b"hi\r\nyo\r".to_vec(), pos: 0 }));
                             }
                             | Ok(Shape::Call(0, a)) if *op == IoOp::OpenMissing && a.len() == 2 && show(&a[0]) == format!("i:{KIND_NOT_FOUND}") => {}
                             | Ok(other) => {
@@ -668,8 +668,10 @@ impl IoMachine {
                                         } else {
                                             let rest = &content[pos..];
                                             let nl = rest.iter().position(|b| *b == b'\n');
+                                            // the line operation removes `\n` and an immediately preceding `\r`; a
+                                            // final unterminated line is returned as it is (docs/proposals/filesystem.md)
                                             let (line, adv) = match nl {
-                                                | Some(i) => (&rest[..i], i + 1),
+                                                | Some(i) => (rest[..i].strip_suffix(b"\r").unwrap_or(&rest[..i]), i + 1),
                                                 | None => (rest, rest.len()),
                                             };
                                             (1, format!("b:{:02x?}", line), pos + adv)
@@ -768,7 +770,7 @@ impl Check for IoMachine {
         "model_checking"
     }
     fn describe(&self, i: usize) -> String {
-        format!("I/O operation prefix {:?} followed by each of {} operations, on one live runtime; scratch files: exist.txt = \"hello\\nworld\", missing.txt absent, new.txt created on demand; stdin = \"in1\\nin2\"", self.prefixes[i], self.ops.len())
+        format!("I/O operation prefix {:?} followed by each of {} operations, on one live runtime; scratch files: exist.txt = \"hi\\r\\nyo\\r\" (a CR LF line, then an unterminated line ending in CR), missing.txt absent, new.txt created on demand; stdin = \"a\\r\\r\\nb\\r\"", self.prefixes[i], self.ops.len())
     }
     fn rule(&self) -> String {
         format!("every sequence of <= {} I/O operations over the alphabet {{open_reader(existing | missing), create_writer, append_writer, and for the reader slots stdin / first / second opened reader: read 3 bytes, read_line, read_all, close_reader; for the writer slots stdout / first / second opened writer: write_all, flush, close_writer}} ({} operations) executed on ONE live Runtime (handles persist) against a reference model (handle -> open with position / closed, file contents); invariants on every transition: exactly the declared arguments are consumed; failures arrive on the error continuation with the predicted HostIoErrorKind (NotFound for a missing path, Closed for a closed handle); a closed handle never becomes usable again and closing it twice is an error; the standard handles never close; reads return exactly the model's bytes; at the end file contents and standard output equal the model's; states = sequences, transitions = operations executed on the implementation", self.depth, self.ops.len())
